@@ -3,6 +3,7 @@ package main
 // Rules added after seeded changes showed gaps (C09.6, C09.7, C10.5–C10.7, C19.5, C19.6).
 
 import (
+	"go/ast"
 	"fmt"
 	"go/constant"
 	"go/token"
@@ -5568,4 +5569,156 @@ func dependsOnReadCount(b *ssa.BasicBlock) bool {
 		}
 	}
 	return false
+}
+
+// C15.10 (also C04.9): a Config that comes from the application is normalised before its limits are advertised and
+// enforced: every call of populateConfig in the root package is dominated by a call of validateConfig on the same
+// value (whose error, if any, was handled). validateConfig clips the stream limits to 2^60 and the windows to the
+// varint maximum; the per-client Config of GetConfigForClient used to skip it (limit 2^61: every handshake fails;
+// MaxInt64: TransportParameters.Marshal panics on the run goroutine and kills the server process).
+func configValidatedBeforeUse(c *Ctx, R string) {
+	pop := c.obj("", "", "populateConfig")
+	val := c.obj("", "", "validateConfig")
+	n := 0
+	for _, cs := range c.P.CallSites(pop) {
+		cl, ok := cs.Instr.(*ssa.Call)
+		if !ok || cs.Kind != "call" || len(cl.Call.Args) != 1 {
+			continue
+		}
+		n++
+		arg := cl.Call.Args[0]
+		f := cs.Fn
+		site := cs.Instr
+		validated := func(in ssa.Instruction) bool {
+			v, ok := in.(*ssa.Call)
+			return ok && CallsTo(val)(in) && len(v.Call.Args) == 1 && v.Call.Args[0] == arg
+		}
+		c.cut(R, "validated:"+rootFn(f).Name()+" normalises the Config before it populates it", &Cut{Fn: f, NoInline: true,
+			Target: func(in ssa.Instruction) bool { return in == site }, Barrier: validated},
+			"the documented clipping (stream limits to 2^60, windows to the varint maximum, packet size) and the version check live in validateConfig; a Config that bypasses it is advertised and enforced raw")
+	}
+	c.Floor(R, "populateConfig call sites", n, 4)
+}
+
+// C18.13: a frame after the trailing HEADERS frame is an invalid frame sequence and gets the connection error the
+// other invalid sequences get: in Stream.Read every return on the parsedTrailer edge (DATA after trailers, HEADERS after
+// trailers) passes conn.CloseWithError(H3_FRAME_UNEXPECTED), like the unexpected-frame-type branch next to it.
+func c18FramesAfterTrailersCloseConnection(c *Ctx) {
+	const R = "C18.13"
+	f := c.fn("http3", "Stream", "Read")
+	ptf := c.fld("http3", "Stream", "parsedTrailer")
+	fu := c.konst("http3", "ErrCodeFrameUnexpected")
+	starts := edgeSuccs(f, BoolTrue(Load(ptf)))
+	c.Floor(R, "tests of parsedTrailer in Stream.Read", len(starts), 2)
+	if len(starts) == 0 {
+		return
+	}
+	closes := func(in ssa.Instruction) bool {
+		cl, ok := in.(ssa.CallInstruction)
+		if !ok {
+			return false
+		}
+		cc := cl.Common()
+		name := ""
+		if cc.IsInvoke() {
+			name = cc.Method.Name()
+		} else if sc := cc.StaticCallee(); sc != nil {
+			name = sc.Name()
+		}
+		if name != "CloseWithError" {
+			return false
+		}
+		for _, a := range cc.Args {
+			if ConstOf(fu)(a) {
+				return true
+			}
+		}
+		return false
+	}
+	c.cut(R, "close:a DATA or HEADERS frame after the trailers closes the connection with H3_FRAME_UNEXPECTED", &Cut{Fn: f, StartBlocks: starts, Target: isReturn, Barrier: closes, NoInline: true},
+		"RFC 9114 §4.1: an invalid sequence of frames is a connection error; returning a plain error to the body reader lets the handler answer 200 and keeps the connection open")
+}
+
+// C18.14: a request with an explicitly empty body (http.NoBody) has content length 0, like one with a nil body:
+// actualContentLength compares Request.Body with http.NoBody (the x/net/http2 original does; the copy had lost it), so
+// POST / PUT / PATCH with NoBody send content-length: 0.
+func c18NoBodyIsLengthZero(c *Ctx) {
+	const R = "C18.14"
+	f := c.fn("http3", "", "actualContentLength")
+	found := false
+	eachInstr(f, func(in ssa.Instruction) {
+		b, ok := in.(*ssa.BinOp)
+		if !ok || (b.Op != token.EQL && b.Op != token.NEQ) {
+			return
+		}
+		for _, v := range []ssa.Value{b.X, b.Y} {
+			v = stripConv(v)
+			if mi, ok := v.(*ssa.MakeInterface); ok {
+				v = mi.X
+			}
+			if u, ok := v.(*ssa.UnOp); ok && u.Op == token.MUL {
+				if g, ok := u.X.(*ssa.Global); ok && g.Name() == "NoBody" && g.Pkg != nil && g.Pkg.Pkg.Path() == "net/http" {
+					found = true
+				}
+			}
+		}
+	})
+	c.Check(found, R, "nobody:actualContentLength treats http.NoBody like a nil body", c.P.Pos(f.Pos()),
+		"without it a POST with an explicitly empty body is sent without content-length: 0 and the server sees ContentLength -1")
+}
+
+// C18.15: the frame parser does not silently swallow a frame type it knows: every case of ParseNext's switch over the
+// frame type either returns the frame (so that the caller's default branch can reject it where it is forbidden) or
+// closes the connection. CANCEL_PUSH, PUSH_PROMISE and MAX_PUSH_ID are recognised, logged and then skipped like
+// unknown types — also on request streams, where RFC 9114 §7.2.3/5/7 demand H3_FRAME_UNEXPECTED.
+func c18KnownFrameTypesAreNotSkipped(c *Ctx) {
+	const R = "C18.15"
+	obj := c.obj("http3", "frameParser", "ParseNext")
+	fd, pk := c.P.FuncDecl(obj)
+	if !c.Check(fd != nil, R, "anchor:frameParser.ParseNext", "-", "declaration") {
+		return
+	}
+	n := 0
+	ast.Inspect(fd.Body, func(nd ast.Node) bool {
+		sw, ok := nd.(*ast.SwitchStmt)
+		if !ok || sw.Tag == nil {
+			return true
+		}
+		for _, cc := range sw.Body.List {
+			cl := cc.(*ast.CaseClause)
+			if len(cl.List) == 0 {
+				continue
+			}
+			var labels []string
+			allConst := true
+			for _, e := range cl.List {
+				tv, ok := pk.TypesInfo.Types[e]
+				if !ok || tv.Value == nil {
+					allConst = false
+					break
+				}
+				labels = append(labels, tv.Value.ExactString())
+			}
+			if !allConst {
+				continue
+			}
+			n++
+			handled := false
+			ast.Inspect(cl, func(x ast.Node) bool {
+				switch y := x.(type) {
+				case *ast.ReturnStmt:
+					handled = true
+				case *ast.CallExpr:
+					if se, ok := y.Fun.(*ast.SelectorExpr); ok && se.Sel.Name == "closeConn" {
+						handled = true
+					}
+				}
+				return true
+			})
+			c.Check(handled, R, "known:frame type "+strings.Join(labels, ",")+" is returned to the caller or rejected", c.P.Pos(cl.Pos()),
+				"a recognised frame type that is skipped like an unknown one never reaches the request stream's `unexpected frame` branch")
+		}
+		return true
+	})
+	c.Floor(R, "frame-type cases in ParseNext", n, 6)
 }
